@@ -19,7 +19,8 @@ Definition ranked2 : Prop := forall k d, In d (q_deps Q k) -> (rank d < rank k)%
 
 (* the stamp of an input is the revision of its last write: the value did not change since *)
 Definition stamps_ok : Prop :=
-  forall r i r', q_stamp Q r i <= r' -> r' <= r -> q_in Q r' i = q_in Q r i.
+  (forall r i r', q_stamp Q r i <= r' -> r' <= r -> q_in Q r' i = q_in Q r i) /\
+  (forall r i, 1 <= r -> q_stamp Q r i <= r).     (* and a stamp is not in the future *)
 
 Lemma ev_stable : ranked2 -> forall r n m k, (rank k < n)%nat -> (rank k < m)%nat ->
   ev Q n r k = ev Q m r k.
@@ -90,28 +91,29 @@ Inductive path2 (s : cstate2) (t : thread) : upd2 -> Prop :=
     stack2 s t = (k @@ ph) :: below ->
     (ph = QClaimed /\ (forall m, c2_memo s k = Some m -> n_ver m <> c2_cur s)) \/
     (exists l ok, ph = QVerify l ok) ->
-    path2 s t (mkU2 (c2_proto s) (c2_memo s) ((k @@ QExec (q_deps Q k) []) :: below)
+    path2 s t (mkU2 (c2_proto s) (c2_memo s) ((k @@ QExec (q_deps Q k) [] REV_START) :: below)
                     (todo2 s t) false [EExec t k (c2_cur s)])
 | Q_call_v k d rest below :
     stack2 s t = (k @@ QVerify (d :: rest) true) :: below ->
     path2 s t (mkU2 (c2_proto s) (c2_memo s)
                     ((d @@ QStart) :: (k @@ QVerify rest true) :: below) (todo2 s t) false [])
-| Q_call_x k d rest acc below :
-    stack2 s t = (k @@ QExec (d :: rest) acc) :: below ->
+| Q_call_x k d rest acc mc below :
+    stack2 s t = (k @@ QExec (d :: rest) acc mc) :: below ->
     path2 s t (mkU2 (c2_proto s) (c2_memo s)
-                    ((d @@ QStart) :: (k @@ QExec rest acc) :: below) (todo2 s t) false [])
+                    ((d @@ QStart) :: (k @@ QExec rest acc mc) :: below) (todo2 s t) false [])
 | Q_mark k below m :
     stack2 s t = (k @@ QVerify [] true) :: below -> c2_memo s k = Some m ->
     inputs_unchanged Q (c2_cur s) k (n_ver m) = true ->
     path2 s t (mkU2 (c2_proto s)
                     (updN (c2_memo s) k (Some (mkM2 (c2_cur s) (n_val m) (n_chg m) (n_deps m))))
                     ((k @@ QRelease (n_val m) (n_chg m)) :: below) (todo2 s t) false [])
-| Q_publish k acc below :
-    stack2 s t = (k @@ QExec [] acc) :: below ->
+| Q_publish k acc mc below :
+    stack2 s t = (k @@ QExec [] acc mc) :: below ->
     let nv := q_body Q k (map (q_in Q (c2_cur s)) (q_ins Q k)) acc in
+    let ch0 := N.max mc (stamp_max Q (c2_cur s) k) in
     let ch := match c2_memo s k with
-              | Some mo => if n_val mo =? nv then n_chg mo else c2_cur s
-              | None => c2_cur s
+              | Some mo => if q_eq Q k && (n_val mo =? nv) then n_chg mo else ch0
+              | None => ch0
               end in
     path2 s t (mkU2 (c2_proto s)
                     (updN (c2_memo s) k (Some (mkM2 (c2_cur s) nv ch (q_deps Q k))))
@@ -140,7 +142,7 @@ Proof.
   { destruct (th2_todo (c2_thr s t)) as [|k td] eqn:Etd; [discriminate|].
     intros [= <-]. now constructor. }
   cbn [g_key g_phase]. unfold step_frame2. change (th2_todo (c2_thr s t)) with (todo2 s t).
-  destruct ph as [| | | |l ok|l acc|v ch|v ch].
+  destruct ph as [| | | |l ok|l acc mc|v ch|v ch].
   - destruct (c2_memo s k) as [m|] eqn:Em.
     + destruct (N.eqb_spec (n_ver m) (c2_cur s)) as [Ev|Ev]; intros [= <-].
       * eapply Q_hit; eauto.
@@ -171,8 +173,10 @@ Proof.
            ++ eapply Q_exec_start; eauto.
         -- intros [= <-]. eapply Q_exec_start; eauto.
       * intros [= <-]. eapply Q_exec_start; eauto.
-    + destruct ok; intros [= <-].
+    + destruct ok, c; cbn [andb]; intros [= <-].
       * eapply Q_call_v; eauto.
+      * eapply Q_exec_start; eauto.
+      * eapply Q_exec_start; eauto.
       * eapply Q_exec_start; eauto.
   - destruct l as [|d rest]; intros [= <-].
     + eapply Q_publish; eauto.
@@ -204,9 +208,9 @@ Ltac dpath2 Hp :=
     | k below m Hst Hm Hv
     | k ph below Hst Hph
     | k d rest below Hst
-    | k d rest acc below Hst
+    | k d rest acc mc below Hst
     | k below m Hst Hm Hin
-    | k acc below Hst
+    | k acc mc below Hst
     | k v ch below pr1 st Hst Hrm Hrs
     | k v ch below pr1 st a b c0 Hst Hrm Hrs
     | k v ch below pr1 out Hst Hub ].
